@@ -104,7 +104,7 @@ def rule_original_guard(repo: Repo) -> List[Ob]:
                         if defs is None:
                             defs = Defs(f.node, f.params()[0] if f.params() else None)
                         v = st.value
-                        key = f"{f.relpath}::{f.qualname}::original_loop_guard::{src(v)[:40]}"
+                        key = f"{f.relpath}::{f.qualname}::original_loop_guard::" + ("default" if isinstance(v, ast.Call) and call_name(v) == "TrueCond" else "recovered")
                         if isinstance(v, ast.Call) and call_name(v) == "TrueCond":
                             obs.append(Ob("G2-original-guard", key, f.relpath, st.lineno, f.qualname, True, "default: guard `true`"))
                             continue
@@ -192,9 +192,19 @@ def rule_after_loop(repo: Repo) -> List[Ob]:
             d = divs[0]
             ratio_ok = isinstance(d.left, ast.Name) and isinstance(d.right, ast.Name) and d.left.id == var_of(num_call) and d.right.id == var_of(den_call)
             detail = src(d)
-    obs.append(Ob("E-after-loop", "cli/common.py::get_moment_given_termination::ratio", h.relpath, h.node.lineno, h.qualname, ind_ok and ratio_ok,
-                  "E(M | terminated) = E(M * [not guard]) / E([not guard]) with one indicator built from the original loop guard" if ind_ok and ratio_ok else
-                  f"conditional moment is not E(M*[not guard]) / E([not guard]) ({detail or 'indicator or quotient not recognised'})"))
+    key_r = "cli/common.py::get_moment_given_termination::ratio"
+    uses_guard = [c for c in walk_no_nested(h.node) if isinstance(c, ast.Call) and call_name(c) == "to_arithm" and "original_loop_guard" in src(c)]
+    if uses_guard and not nots:
+        obs.append(Ob("E-after-loop", key_r, h.relpath, uses_guard[0].lineno, h.qualname, False,
+                      "the indicator is built from the loop guard itself, not from its negation: the moments are conditioned on the loop still RUNNING"))
+    elif ind_ok and ratio_ok:
+        obs.append(Ob("E-after-loop", key_r, h.relpath, h.node.lineno, h.qualname, True,
+                      "E(M | terminated) = E(M * [not guard]) / E([not guard]) with one indicator built from the original loop guard"))
+    elif ind_ok and len(polys) == 2 and detail:
+        obs.append(Ob("E-after-loop", key_r, h.relpath, h.node.lineno, h.qualname, False,
+                      f"conditional moment `{detail}` is not E(M*[not guard]) / E([not guard]) (numerator and denominator exchanged)"))
+    else:
+        obs.append(inconclusive("E-after-loop", key_r, h.relpath, h.node.lineno, h.qualname, "indicator / quotient construction not recognised"))
     if n < 6:
         raise AnalysisError(f"E-after-loop: only {n} after-loop sites found")
     return obs
@@ -448,43 +458,80 @@ def mut_lossy_sources(repo: Repo) -> List[Mutant]:
 def rule_solver_flag(repo: Repo) -> List[Ob]:
     """CyclicSolver.is_exact is the flag returned by get_all_roots; RecurrenceSolver and get_solution forward it."""
     obs = []
-    f = repo.function("recurrences/solver/cyclic_solver.py", "CyclicSolver._compute_general_solution")
-    ok = any(isinstance(st, ast.Assign) and isinstance(st.value, ast.Call) and call_name(st.value) == "get_all_roots" and isinstance(st.targets[0], ast.Tuple)
-             and is_self_attr(st.targets[0].elts[1], "_is_exact") for st in walk_no_nested(f.node))
-    obs.append(Ob("H2-solver-flag", "recurrences/solver/cyclic_solver.py::CyclicSolver::_is_exact", f.relpath, f.node.lineno, f.qualname, ok,
-                  "the solver's exactness flag is the one returned with the roots" if ok else "CyclicSolver._is_exact is not taken from get_all_roots"))
-    # the options reach get_all_roots in the right positions
-    calls = _calls(f.node, "get_all_roots")
-    g = repo.function("utils/expressions.py", "get_all_roots")
-    gp = g.params()
-    OPTION_OF_PARAM = {"numeric": "numeric_roots", "numeric_croots": "numeric_croots", "eps": "numeric_eps"}  # parameter -> settings flag
-    got = {}
-    if calls:
-        for i, a in enumerate(calls[0].args):
+    R = "H2-solver-flag"
+    rp = "recurrences/solver/cyclic_solver.py"
+    cyc = repo.cls("CyclicSolver", rp)
+    flag_attr = None
+    site = None
+    for m in cyc.all_methods:
+        for st in walk_no_nested(m.node):
+            if isinstance(st, ast.Assign) and isinstance(st.value, ast.Call) and call_name(st.value) == "get_all_roots" and isinstance(st.targets[0], ast.Tuple) \
+                    and len(st.targets[0].elts) == 2 and is_self_attr(st.targets[0].elts[1], None, m.params()[0]):
+                flag_attr = st.targets[0].elts[1].attr
+                site = (m, st)
+    key = f"{rp}::CyclicSolver::_is_exact"
+    if flag_attr is None:
+        obs.append(inconclusive(R, key, rp, cyc.node.lineno, "CyclicSolver", "the flag returned with the roots is not stored on the solver in a recognised way"))
+    else:
+        obs.append(Ob(R, key, rp, site[1].lineno, site[0].qualname, True, f"the solver's exactness flag self.{flag_attr} is the one returned with the roots"))
+        # the options reach get_all_roots in the right positions
+        call = site[1].value
+        g = repo.function("utils/expressions.py", "get_all_roots")
+        gp = g.params()
+        OPTION_OF_PARAM = {"numeric": "numeric_roots", "numeric_croots": "numeric_croots", "eps": "numeric_eps"}  # parameter -> settings flag
+        got = {}
+        for i, a_ in enumerate(call.args):
             if i < len(gp):
-                got[gp[i]] = a.attr if is_self_attr(a) else src(a)
-        for k in calls[0].keywords:
+                got[gp[i]] = a_.attr if is_self_attr(a_) else src(a_)
+        for k in call.keywords:
             got[k.arg] = k.value.attr if is_self_attr(k.value) else src(k.value)
-    ok2 = all(got.get(p) == flag for p, flag in OPTION_OF_PARAM.items()) and set(OPTION_OF_PARAM) <= set(gp)
-    obs.append(Ob("H2-solver-flag", "recurrences/solver/cyclic_solver.py::CyclicSolver::options", f.relpath, calls[0].lineno if calls else 0, f.qualname, ok2,
-                  f"root options reach get_all_roots as {OPTION_OF_PARAM}" if ok2 else f"root options passed as {got}, expected {OPTION_OF_PARAM}"))
-    init = repo.function("recurrences/solver/cyclic_solver.py", "CyclicSolver.__init__")
-    for flag in OPTION_OF_PARAM.values():
-        st = [x for x in walk_no_nested(init.node) if isinstance(x, ast.Assign) and any(is_self_attr(t, flag) for t in x.targets)]
-        ok3 = len(st) == 1 and f"settings.{flag}" in src(st[0].value) and re.search(r"\b%s\b is None" % flag, src(st[0].value)) is not None
-        obs.append(Ob("H2-solver-flag", f"recurrences/solver/cyclic_solver.py::CyclicSolver.__init__::{flag}", init.relpath, st[0].lineno if st else init.node.lineno, init.qualname, ok3,
-                      f"self.{flag} defaults to settings.{flag} when the caller passes None" if ok3 else f"self.{flag} is not `settings.{flag} if {flag} is None else {flag}`"))
-    for rp, qn, expr in (("recurrences/solver/cyclic_solver.py", "CyclicSolver.is_exact", "self._is_exact"),
-                         ("recurrences/solver/recurrence_solver.py", "RecurrenceSolver.is_exact", "self.solver.is_exact")):
-        h = repo.function(rp, qn)
-        rets = [src(r.value) for r in walk_no_nested(h.node) if isinstance(r, ast.Return)]
-        ok = rets == [expr]
-        obs.append(Ob("H2-solver-flag", f"{rp}::{qn}", rp, h.node.lineno, qn, ok, f"returns {expr}" if ok else f"returns {rets}"))
-    for rp, qn in (("recurrences/rec_builder.py", "RecBuilder.get_solution"), ("recurrences/diff_rec_builder.py", "DiffRecBuilder.get_solution")):
-        h = repo.function(rp, qn)
-        rets = [r.value for r in walk_no_nested(h.node) if isinstance(r, ast.Return)]
-        ok = len(rets) == 1 and isinstance(rets[0], ast.Tuple) and src(rets[0].elts[1]).endswith(".is_exact")
-        obs.append(Ob("H2-solver-flag", f"{rp}::{qn}", rp, h.node.lineno, qn, ok, "solution is returned together with its solver's flag" if ok else "get_solution does not forward solver.is_exact"))
+        if set(OPTION_OF_PARAM) <= set(gp):
+            wrong = {p_: got.get(p_) for p_, fl in OPTION_OF_PARAM.items() if got.get(p_) in OPTION_OF_PARAM.values() and got.get(p_) != fl}
+            known = all(got.get(p_) in OPTION_OF_PARAM.values() for p_ in OPTION_OF_PARAM)
+            if wrong:
+                obs.append(Ob(R, f"{rp}::CyclicSolver::options", rp, call.lineno, site[0].qualname, False, f"root options are crossed: {wrong} (expected {OPTION_OF_PARAM})"))
+            elif known:
+                obs.append(Ob(R, f"{rp}::CyclicSolver::options", rp, call.lineno, site[0].qualname, True, f"root options reach get_all_roots as {OPTION_OF_PARAM}"))
+            else:
+                obs.append(inconclusive(R, f"{rp}::CyclicSolver::options", rp, call.lineno, site[0].qualname, f"arguments {got} not recognised as the solver's option fields"))
+        init = cyc.methods.get("__init__")
+        for flag in OPTION_OF_PARAM.values():
+            st = [x for x in walk_no_nested(init.node) if isinstance(x, ast.Assign) and any(is_self_attr(t, flag) for t in x.targets)] if init else []
+            k2 = f"{rp}::CyclicSolver.__init__::{flag}"
+            if len(st) != 1:
+                obs.append(inconclusive(R, k2, rp, init.node.lineno if init else 0, "CyclicSolver.__init__", f"initialisation of self.{flag} not recognised"))
+                continue
+            v = src(st[0].value)
+            other = [f2 for f2 in OPTION_OF_PARAM.values() if f2 != flag and f"settings.{f2}" in v]
+            if other:
+                obs.append(Ob(R, k2, rp, st[0].lineno, "CyclicSolver.__init__", False, f"self.{flag} defaults to settings.{other[0]}"))
+            elif f"settings.{flag}" in v:
+                obs.append(Ob(R, k2, rp, st[0].lineno, "CyclicSolver.__init__", True, f"self.{flag} defaults to settings.{flag} when the caller passes None"))
+            else:
+                obs.append(inconclusive(R, k2, rp, st[0].lineno, "CyclicSolver.__init__", f"default of self.{flag} not recognised"))
+
+    def forwards(fi, describe, accept):
+        rets = [r.value for r in walk_no_nested(fi.node) if isinstance(r, ast.Return) and r.value is not None]
+        k2 = f"{fi.relpath}::{fi.qualname}"
+        if not rets:
+            obs.append(inconclusive(R, k2, fi.relpath, fi.node.lineno, fi.qualname, "no return"))
+            return
+        vals = []
+        for r in rets:
+            e = r.elts[1] if isinstance(r, ast.Tuple) and len(r.elts) == 2 else r
+            vals.append(e)
+        if any(isinstance(e, ast.Constant) for e in vals):
+            obs.append(Ob(R, k2, fi.relpath, fi.node.lineno, fi.qualname, False, f"{describe} is the constant {src(vals[0])}: rounded results are reported as exact"))
+        elif all(accept(e) for e in vals):
+            obs.append(Ob(R, k2, fi.relpath, fi.node.lineno, fi.qualname, True, f"{describe} is forwarded unchanged ({src(vals[0])})"))
+        else:
+            obs.append(inconclusive(R, k2, fi.relpath, fi.node.lineno, fi.qualname, f"{describe} is `{src(vals[0])}`"))
+    if flag_attr is not None:
+        forwards(repo.function(rp, "CyclicSolver.is_exact"), "the solver's exactness", lambda e: is_self_attr(e, flag_attr))
+    forwards(repo.function("recurrences/solver/recurrence_solver.py", "RecurrenceSolver.is_exact"), "the chosen solver's exactness",
+             lambda e: isinstance(e, ast.Attribute) and e.attr == "is_exact")
+    for rp2, qn in (("recurrences/rec_builder.py", "RecBuilder.get_solution"), ("recurrences/diff_rec_builder.py", "DiffRecBuilder.get_solution")):
+        forwards(repo.function(rp2, qn), "the exactness returned with a solution", lambda e: isinstance(e, ast.Attribute) and e.attr == "is_exact")
     return obs
 
 
@@ -925,9 +972,11 @@ def rule_parser_helpers(repo: Repo) -> List[Ob]:
     if lasts:
         tests = controlling_tests(c, node_for(c, lasts[0]))
         controlled = any("len(" in src(t.ast) and "<" in src(t.ast) for t, r in tests)
-    obs.append(Ob("E-probabilities", f"{rp}::{cat.qualname}::implicit-last", rp, lasts[0].lineno if lasts else cat.node.lineno, cat.qualname, ok and controlled,
-                  "the remainder probability is appended exactly when one probability is missing" if ok and controlled else
-                  "the implicit last probability is not appended under `len(probabilities) < len(polynomials)`"))
+    if ok and controlled:
+        obs.append(Ob("E-probabilities", f"{rp}::{cat.qualname}::implicit-last", rp, lasts[0].lineno, cat.qualname, True,
+                      "the remainder probability is appended exactly when one probability is missing"))
+    else:
+        obs.append(inconclusive("E-probabilities", f"{rp}::{cat.qualname}::implicit-last", rp, cat.node.lineno, cat.qualname, "handling of the implicit last probability not recognised"))
     # --- assigned names are CAS symbols
     adds = []
     for m in st.all_methods:
@@ -958,41 +1007,77 @@ def rule_parser_helpers(repo: Repo) -> List[Ob]:
                       "is silently read as the constant on every right-hand side"))
     # --- simultaneous assignment: all temporaries first
     sim = st.methods.get("_assign_simult")
-    if sim is None:
-        raise AnalysisError("_assign_simult not found")
-    d = Defs(sim.node, sim.params()[0])
-    rets = [r.value for r in walk_no_nested(sim.node) if isinstance(r, ast.Return)]
-    ok = False
-    if len(rets) == 1 and isinstance(rets[0], ast.BinOp) and isinstance(rets[0].op, ast.Add) and isinstance(rets[0].left, ast.Name) and isinstance(rets[0].right, ast.Name):
-        l, r = rets[0].left.id, rets[0].right.id
-        la = [x for x in walk_no_nested(sim.node) if isinstance(x, ast.Call) and call_name(x) == "append" and isinstance(x.func.value, ast.Name) and x.func.value.id == l]
-        ra = [x for x in walk_no_nested(sim.node) if isinstance(x, ast.Call) and call_name(x) == "append" and isinstance(x.func.value, ast.Name) and x.func.value.id == r]
-        if len(la) == 1 and len(ra) == 1:
-            ls, rs = src(la[0].args[0]), src(ra[0].args[0])
-            tmp = next((nm for nm, vals in d.defs.items() if any(isinstance(v, ast.Call) and call_name(v) == "get_unique_var" for v in vals)), None)
-            ok = tmp is not None and re.search(r"Token\([^)]*%s\)" % tmp, ls) is not None and "value" in ls and re.search(r"\b%s\b\]\)?$" % tmp, rs) is not None \
-                and re.search(r"\[var\b", rs) is not None
-    obs.append(Ob("E-simult", f"{rp}::StructureTransformer._assign_simult::order", rp, sim.node.lineno, sim.qualname, ok,
-                  "x, y = a, b  becomes  t1 = a; t2 = b; x = t1; y = t2  (all right sides read the old values)" if ok else
-                  "simultaneous assignment is not expanded as `all temporaries first, then all targets`"))
+    key_s = f"{rp}::StructureTransformer._assign_simult::order"
+    verdict, msg = None, "expansion of the simultaneous assignment not recognised"
+    if sim is not None:
+        d = Defs(sim.node, sim.params()[0])
+        rets = [r.value for r in walk_no_nested(sim.node) if isinstance(r, ast.Return)]
+        tmp = next((nm for nm, vals in d.defs.items() if any(isinstance(v, ast.Call) and call_name(v) == "get_unique_var" for v in vals)), None)
+        if len(rets) == 1 and isinstance(rets[0], ast.BinOp) and isinstance(rets[0].op, ast.Add) and isinstance(rets[0].left, ast.Name) and isinstance(rets[0].right, ast.Name) and tmp:
+            def kind(lst):
+                apps = [x for x in walk_no_nested(sim.node) if isinstance(x, ast.Call) and call_name(x) == "append" and isinstance(x.func.value, ast.Name) and x.func.value.id == lst]
+                if len(apps) != 1:
+                    return None
+                a0 = apps[0].args[0]
+                inner = a0.args[0] if isinstance(a0, ast.Call) and a0.args else a0
+                if isinstance(inner, ast.List) and len(inner.elts) == 3:
+                    first, last = src(inner.elts[0]), src(inner.elts[2])
+                    if re.search(r"\b%s\b" % tmp, first) and not re.search(r"\b%s\b" % tmp, last):
+                        return "temp"     # t_i = value_i
+                    if re.search(r"\b%s\b" % tmp, last) and not re.search(r"\b%s\b" % tmp, first):
+                        return "target"   # x_i = t_i
+                return None
+            kl, kr = kind(rets[0].left.id), kind(rets[0].right.id)
+            if kl == "temp" and kr == "target":
+                verdict, msg = True, "x, y = a, b  becomes  t1 = a; t2 = b; x = t1; y = t2  (all right sides read the old values)"
+            elif kl == "target" and kr == "temp":
+                verdict, msg = False, "the target assignments are emitted BEFORE the temporaries are computed: x, y = y, x reads the new x"
+    if verdict is None:
+        obs.append(inconclusive("E-simult", key_s, rp, sim.node.lineno if sim else 0, "StructureTransformer._assign_simult", msg))
+    else:
+        obs.append(Ob("E-simult", key_s, rp, sim.node.lineno, sim.qualname, verdict, msg))
     # --- categorical expansion keeps index, value and probability aligned
     tc = st.methods.get("_transform_categorical")
-    if tc is None:
-        raise AnalysisError("_transform_categorical not found")
-    p = tc.params()
-    polys, probs = p[2], p[3]
-    loops = [n for n in walk_no_nested(tc.node) if isinstance(n, ast.For)]
-    ok = False
-    if len(loops) == 1 and isinstance(loops[0].target, ast.Name):
-        i = loops[0].target.id
-        body = " ".join(src(x) for x in loops[0].body)
-        ok = src(loops[0].iter) == f"range(len({polys}))" and re.search(r"Atom\(\w+, '==', (str\()?%s\)?\)" % i, body) is not None and f"{polys}[{i}]" in body \
-            and any(isinstance(c, ast.Call) and call_name(c) == "Categorical" and src(c.args[0]) == probs for c in walk_no_nested(tc.node)) \
-            and any(isinstance(c, ast.Call) and call_name(c) == "IfStatem" and any(k.arg == "mutually_exclusive" and isinstance(k.value, ast.Constant) and k.value.value is True for k in c.keywords)
-                    for c in walk_no_nested(tc.node))
-    obs.append(Ob("E-categorical", f"{rp}::StructureTransformer._transform_categorical::aligned", rp, tc.node.lineno, tc.qualname, ok,
-                  "branch i of the expansion tests `c == i`, assigns polynomial i, and c is Categorical(all probabilities)" if ok else
-                  "categorical expansion does not keep index, branch polynomial and probability vector aligned"))
+    key_c = f"{rp}::StructureTransformer._transform_categorical::aligned"
+    verdict, msg = None, "categorical expansion not recognised"
+    if tc is not None:
+        p = tc.params()
+        polys, probs = (p[2], p[3]) if len(p) >= 4 else (None, None)
+        cats = [c for c in walk_no_nested(tc.node) if isinstance(c, ast.Call) and call_name(c) == "Categorical" and c.args]
+        ifs_ = [c for c in walk_no_nested(tc.node) if isinstance(c, ast.Call) and call_name(c) == "IfStatem"]
+        loops = [n for n in walk_no_nested(tc.node) if isinstance(n, ast.For)]
+        problems = []
+        good = 0
+        if cats and probs:
+            if src(cats[0].args[0]) == probs:
+                good += 1
+            elif isinstance(cats[0].args[0], ast.Subscript):
+                problems.append(f"the draw is Categorical({src(cats[0].args[0])}): not all probabilities are used")
+        if ifs_:
+            me = [k for k in ifs_[0].keywords if k.arg == "mutually_exclusive"]
+            if me and isinstance(me[0].value, ast.Constant) and me[0].value.value is True:
+                good += 1
+            elif not me and len(ifs_[0].args) < 4:
+                problems.append("the generated if-statement is not marked mutually exclusive: later branches are additionally guarded by the negation of earlier ones")
+        if len(loops) == 1 and isinstance(loops[0].target, ast.Name) and polys:
+            i = loops[0].target.id
+            atoms = [c for c in ast.walk(loops[0]) if isinstance(c, ast.Call) and call_name(c) == "Atom" and len(c.args) == 3]
+            subs_ = [x for x in ast.walk(loops[0]) if isinstance(x, ast.Subscript) and isinstance(x.value, ast.Name) and x.value.id == polys]
+            if atoms and subs_:
+                val = atoms[0].args[2]
+                val = val.args[0] if isinstance(val, ast.Call) and call_name(val) == "str" and val.args else val
+                if src(val) == i and src(subs_[0].slice) == i and src(loops[0].iter) in (f"range(len({polys}))", f"range(len({probs}))"):
+                    good += 1
+                elif src(val) != src(subs_[0].slice):
+                    problems.append(f"branch testing `c == {src(val)}` assigns polynomial [{src(subs_[0].slice)}]")
+        if problems:
+            verdict, msg = False, "; ".join(problems)
+        elif good == 3:
+            verdict, msg = True, "branch i of the expansion tests `c == i`, assigns polynomial i, and c is Categorical(all probabilities)"
+    if verdict is None:
+        obs.append(inconclusive("E-categorical", key_c, rp, tc.node.lineno if tc else 0, "StructureTransformer._transform_categorical", msg))
+    else:
+        obs.append(Ob("E-categorical", key_c, rp, tc.node.lineno, tc.qualname, verdict, msg))
     return obs
 
 
@@ -1123,13 +1208,13 @@ def mut_parser_helpers(repo: Repo) -> List[Mutant]:
 
 
 RULES = {
-    "GUARD": Rule("G2-guard", rule_guard_marks, 3, "only the source loop guard (and its copies / normal forms) is ever marked as loop guard", mut_guard_marks),
-    "ORIGGUARD": Rule("G2-original-guard", rule_original_guard, 2, "the guard used for conditioning on termination derives from the source guard, not from a renamed assignment condition", mut_original_guard),
-    "AFTERLOOP": Rule("E-after-loop", rule_after_loop, 7, "--after_loop arms condition on termination and take the limit; the conditional moment is a ratio over one negated-guard indicator", mut_after_loop),
+    "GUARD": Rule("G2-guard", rule_guard_marks, 3, "only the source loop guard (and its copies / normal forms) is ever marked as loop guard", mut_guard_marks, soft=True),
+    "ORIGGUARD": Rule("G2-original-guard", rule_original_guard, 2, "the guard used for conditioning on termination derives from the source guard, not from a renamed assignment condition", mut_original_guard, soft=True),
+    "AFTERLOOP": Rule("E-after-loop", rule_after_loop, 7, "--after_loop arms condition on termination and take the limit; the conditional moment is a ratio over one negated-guard indicator", mut_after_loop, soft=True),
     "FLAGS": Rule("H2-flags", rule_flag_combiners, 8, "every (value, is_exact) combiner forwards all incoming exactness flags", mut_flag_combiners),
     "LOSSY": Rule("H1-lossy", rule_lossy_sources, 3, "every approximating call in the moment pipeline clears the returned exactness flag", mut_lossy_sources),
-    "SOLVERFLAG": Rule("H2-solver-flag", rule_solver_flag, 6, "solver exactness is the flag returned with the roots and is forwarded unchanged", mut_solver_flag),
-    "VOCAB": Rule("D3-vocabulary", rule_vocabulary, 14, "function-name literals are in the grammar's vocabulary; dispatchers are total; mixing trig/exp is refused", mut_vocabulary),
-    "SIMULATOR": Rule("S-simulator", rule_simulator, 6, "the simulator's dispatch, first-match branching, guard stuttering and guarded assignment have the semantics the analysis assumes", mut_simulator),
-    "PARSER": Rule("E-probabilities", rule_parser_helpers, 9, "probabilistic choices are validated, assigned names are CAS symbols, simultaneous assignment and categorical expansion keep their alignment", mut_parser_helpers),
+    "SOLVERFLAG": Rule("H2-solver-flag", rule_solver_flag, 6, "solver exactness is the flag returned with the roots and is forwarded unchanged", mut_solver_flag, soft=True),
+    "VOCAB": Rule("D3-vocabulary", rule_vocabulary, 14, "function-name literals are in the grammar's vocabulary; dispatchers are total; mixing trig/exp is refused", mut_vocabulary, soft=True),
+    "SIMULATOR": Rule("S-simulator", rule_simulator, 6, "the simulator's dispatch, first-match branching, guard stuttering and guarded assignment have the semantics the analysis assumes", mut_simulator, soft=True),
+    "PARSER": Rule("E-probabilities", rule_parser_helpers, 9, "probabilistic choices are validated, assigned names are CAS symbols, simultaneous assignment and categorical expansion keep their alignment", mut_parser_helpers, soft=True),
 }
